@@ -7,7 +7,7 @@ from collections import Counter
 
 import asyncstdlib as A
 
-from ..loop import CTX, Driver, Suspend, BudgetExceeded
+from ..loop import CTX, Driver, Suspend, BudgetExceeded, Cancel, run_finalizers
 from ..probes import Item, SrcState, Plan, make_source, VLock
 from ..sched import explore
 
@@ -66,6 +66,7 @@ def cases(tier, seed, shard, nshards):
             case["close_after"] = [None] * case["n"]
         # cancellation of one consumer (enumerated over its suspension points inside run_case)
         case["cancel_task"] = rng.randrange(case["n"]) if rng.random() < 0.4 else None
+        case["abandon_on_cancel"] = rng.random() < 0.4
         case["flav"] = "async_class"
         # locks that are a scheduling point before acquiring / after having released
         case["lock_susp"] = rng.choice([[0, 0], [0, 0], [1, 0], [0, 1], [1, 1]]) if case["lock"] else [0, 0]
@@ -91,6 +92,7 @@ def execute(case, choose, cancel_at=None):
     finished = [False] * n
     closed = [False] * n
     advanced = [False] * n
+    abandoned = [False] * n
     viols = []
 
     async def consumer(c):
@@ -111,9 +113,16 @@ def execute(case, choose, cancel_at=None):
                 k += 1
                 if case["cons_susp"]:
                     await Suspend(("cons", c), case["cons_susp"])
+        except Cancel:
+            if case.get("abandon_on_cancel"):
+                # a cancelled consumer that merely stops using its child (an ``async for`` loop does not close the
+                # iterator it was driving): the child stays a live, lagging child; its siblings must not care
+                abandoned[c] = True
+            raise
         finally:
-            await child.aclose()
-            closed[c] = True
+            if not abandoned[c]:
+                await child.aclose()
+                closed[c] = True
 
     worst = {"stale": 0}
 
@@ -162,7 +171,7 @@ def execute(case, choose, cancel_at=None):
                                                 f"(close_after={case['close_after'][c]}, cancelled={cancelled})"))
     if lock is not None and lock.owner is not None and not driver.deadlock:
         viols.append(("tee/lock-held-at-end", f"lock still owned by {lock.owner}"))
-    if all(t.done for t in tasks) and not driver.deadlock:
+    if all(t.done for t in tasks) and not driver.deadlock and not any(abandoned):
         if not st.released():
             key = "tee/unstarted-child-never-deregisters" if not all(advanced) else "tee/source-not-closed-after-last-child"
             viols.append((key, f"all consumers done, source still open (advanced={advanced})"))
